@@ -113,6 +113,8 @@ def expr(e, ind=0):
         if "expr" in e:
             lines.append(sp + "  => " + expr(e["expr"], ind + 1))
         u = "unsafe " if "unsafe" in e else ""
+        if e.get("label"):
+            u = f"'{e['label']}: " + u
         return u + "{\n" + "\n".join(lines) + "\n" + sp + "}"
     if k == "loop":
         return f"loop<{e['src']}> " + expr(e["body"], ind)
@@ -125,7 +127,7 @@ def expr(e, ind=0):
     if k == "closure":
         return "|" + ", ".join(pat(p) for p in e["params"]) + "| " + expr(e["body"], ind)
     if k == "break":
-        return "break" + ((" " + expr(e["e"], ind)) if "e" in e else "")
+        return "break" + (f" '{e['label']}" if e.get("label") else "") + ((" " + expr(e["e"], ind)) if "e" in e else "")
     if k == "continue":
         return "continue"
     if k == "ret":
